@@ -24,7 +24,11 @@ func (a *A) C02() {
 	a.earlyFlush()
 	a.whoMayRead(rd)
 	a.exactFitComplete()
+	a.sectionSeenBeforeComplete()
 	a.psiTestLive()
+	// the PMT PIDs learned from PATs stay registered: the program map is only ever extended, by updateData (rule I2 of C07);
+	// emptying it per PAT section would unregister the programs of the other sections of a multi-section PAT
+	a.programMapWriters()
 	a.assembledPayload()
 }
 
